@@ -75,6 +75,7 @@ func T3EncBufferBounds(p *AsmProg, kind string) func(x *Exec) {
 
 		cur := buf // the current output buffer (replaced by GrowSlice)
 		nospace, ncalls := 0, 0
+		consumed := x.c64(0) // input bytes the native quoter reported as consumed so far
 		returned := false
 		var dbgTrace []int
 		clobber := func(as *AsmState, regs ...string) {
@@ -105,6 +106,14 @@ func T3EncBufferBounds(p *AsmProg, kind string) func(x *Exec) {
 						x.abort(abEnd, "quote")
 					}
 					nb := x.asmTerm(as.R["SI"])
+					// the input window is exactly the part of the string not consumed by earlier
+					// rounds: nothing quoted twice, nothing skipped, nothing read past the end
+					if sp, ok := as.R["DI"].(Ptr); ok && sp.Obj == str {
+						x.check(s.BAnd(s.Eq(sp.Off, consumed), s.Eq(nb, s.Sub(slen, consumed))), "assert",
+							"native quote is resumed with an input window that is not the unconsumed rest of the string (part of it is quoted twice, skipped, or read past its end)")
+					} else {
+						x.check(s.False, "assert", "native quote is given an input pointer outside the string being encoded")
+					}
 					avail := x.asmTerm(x.loadLeafP(dnp, 0, 8, lkInt))
 					room := s.Sub(x.objLSize(dp.Obj), dp.Off)
 					x.check(s.BAnd(s.Ule(dp.Off, x.objLSize(dp.Obj)), s.Ule(avail, room)), "assert",
@@ -124,6 +133,7 @@ func T3EncBufferBounds(p *AsmProg, kind string) func(x *Exec) {
 						}
 						k := x.junk(64)
 						x.assume(s.Ult(k, nb))
+						consumed = s.Add(consumed, k)
 						clobber(as, "CX", "DX", "SI", "DI", "R8", "R9", "R10", "R11")
 						as.R["AX"] = s.Not(k)
 					}
